@@ -49,6 +49,8 @@ def strategy_(g):
         tolc = g.choice(["zero", "tiny", "mid", "loose"])
         tol = {"zero": 0.0, "tiny": 10.0 ** g.rnd.uniform(-12, -8), "mid": 10.0 ** g.rnd.uniform(-8, -3), "loose": 10.0 ** g.rnd.uniform(-3, -1)}[tolc]
         calls.append({"tol": tol, "max_iter": g.choice([1, 1, 2, 3, 4, 5, 8, 12, 20, 30]), "verbose": g.boolean(), "fix_first": g.boolean()})
+        # between two calls the user may nudge vertex poses IN PLACE (the pose is an ndarray; no new object is assigned)
+        calls[-1]["nudge"] = [[g.rnd.randrange(10**6), g.rnd.randrange(10**6), g.rnd.uniform(-0.3, 0.3)] for _ in range(g.rnd.randint(1, 2))] if (calls[:-1] and g.choice([False, False, True])) else []
     calls[0]["fix_first"] = case["fix_first"]
     case["calls"] = calls
     case["regime"] = regime
@@ -135,6 +137,12 @@ def check(case, ctx):
     nontriv = len(case["calls"]) >= 2
     for ci, call in enumerate(case["calls"]):
         tol, max_iter, verbose, ff = call["tol"], call["max_iter"], call["verbose"], call["fix_first"]
+        for vi, comp, dlt in call.get("nudge", []):
+            v = G._vertices[vi % len(G._vertices)]
+            arr = np.asarray(v.pose)
+            if np.all(np.isfinite(arr)):
+                arr[comp % R.PDIM[gs.kind_of(v.pose)]] += dlt
+                ctx.event("vertex-nudged-in-place-between-calls")
         F = rebuild(case, G)
         M = rebuild(case, G)
         if state_bits(F) != state_bits(G):
